@@ -19,6 +19,16 @@ package htlc
 //@   nopanic
 //@ end
 
+// Sums over the listed contracts (ghost, defined by recursion over the list position): INSUM(H, j, d) is the amount of
+// denomination d in the incoming cross-chain transfers among H[0..j), OUTSUM the same for outgoing ones.
+//@ define INSUM(H, j, d) = uf("htlc_in_sum", H, j, d)
+//@ define OUTSUM(H, j, d) = uf("htlc_out_sum", H, j, d)
+//@ axiom sums0(H, d)
+//@   ensures INSUM(H, 0, d) == 0 && OUTSUM(H, 0, d) == 0
+//@ axiom sumsS(H, j, d)
+//@   ensures j >= 0 ==> INSUM(H, j + 1, d) == INSUM(H, j, d) + ite(H[j].Transfer && H[j].Direction == 1, amt(H[j].Amount, d), 0)
+//@                   && OUTSUM(H, j + 1, d) == OUTSUM(H, j, d) + ite(H[j].Transfer && H[j].Direction == 2, amt(H[j].Amount, d), 0)
+
 // Genesis import (C12): every listed contract is stored under its id, unchanged, and queued for its expiration height
 // (so that a re-imported open contract still expires), whether it is a plain HTLC or a cross-chain transfer.
 //@ func InitGenesis(ctx, k, data)
@@ -26,15 +36,24 @@ package htlc
 // ids in a genesis file are canonical (lower-case) hex, as ExportGenesis writes them: hex decoding accepts both letter
 // cases, so two entries whose ids differ only in case would name the same HTLC (ValidateGenesis compares the strings)
 //@   requires canonical_ids: forall j:Int :: 0 <= j && j < len(data.Htlcs) ==> hex(unhex(data.Htlcs[j].Id)) == data.Htlcs[j].Id
+//@   uses sums0(data.Htlcs, "")
+//@   uses sumsS(data.Htlcs, 0, "")
 //@   modifies htlcs, queue, supplies, prm, prevTime
 //@   invariant #1 idx:   rangeindex >= 0 - 1 && rangeindex < len(data.Supplies)
 //@   invariant #1 frame: htlcs == old(htlcs) && queue == old(queue)
 //@   invariant #2 idx:   rangeindex >= 0 - 1 && rangeindex < len(data.Htlcs)
 //@   invariant #2 done:  forall j:Int :: 0 <= j && j <= rangeindex ==> has(htlcs, unhex(data.Htlcs[j].Id)) && get(htlcs, unhex(data.Htlcs[j].Id)) == data.Htlcs[j]
 //@                          && has(queue, data.Htlcs[j].ExpirationHeight, unhex(data.Htlcs[j].Id)) && hex(unhex(data.Htlcs[j].Id)) == data.Htlcs[j].Id
-//@   invariant #3 idx:   rangeindex >= 0 - 1
+//@   invariant #2 sums:  forall d:Str :: amt(incomingSupplies, d) == INSUM(data.Htlcs, rangeindex + 1, d) && amt(outgoingSupplies, d) == OUTSUM(data.Htlcs, rangeindex + 1, d)
+//@   invariant #3 idx:   rangeindex >= 0 - 1 && rangeindex < len(l_supplies)
+//@   invariant #3 recon: forall j:Int :: 0 <= j && j <= rangeindex ==> l_supplies[j].IncomingSupply.Amount == INSUM(data.Htlcs, len(data.Htlcs), l_supplies[j].CurrentSupply.Denom)
+//@                          && l_supplies[j].OutgoingSupply.Amount == OUTSUM(data.Htlcs, len(data.Htlcs), l_supplies[j].CurrentSupply.Denom)
 //@   invariant #3 frame: forall j:Int :: 0 <= j && j < len(data.Htlcs) ==> has(htlcs, unhex(data.Htlcs[j].Id)) && get(htlcs, unhex(data.Htlcs[j].Id)) == data.Htlcs[j]
 //@                          && has(queue, data.Htlcs[j].ExpirationHeight, unhex(data.Htlcs[j].Id))
 //@   ensures imported: forall j:Int :: 0 <= j && j < len(data.Htlcs) ==> has(htlcs, unhex(data.Htlcs[j].Id)) && get(htlcs, unhex(data.Htlcs[j].Id)) == data.Htlcs[j]
 //@                          && has(queue, data.Htlcs[j].ExpirationHeight, unhex(data.Htlcs[j].Id))
+// C04, base case: every stored asset supply - whatever its recorded totals, zero included - records exactly the sums
+// of the listed open transfers of its denomination (an import that does not reconcile aborts)
+//@   ensures @C04 reconciled: forall d:Str :: has(supplies, d) ==> get(supplies, d).IncomingSupply.Amount == INSUM(data.Htlcs, len(data.Htlcs), get(supplies, d).CurrentSupply.Denom)
+//@                          && get(supplies, d).OutgoingSupply.Amount == OUTSUM(data.Htlcs, len(data.Htlcs), get(supplies, d).CurrentSupply.Denom)
 //@ end
